@@ -79,6 +79,69 @@ def install(M):
         raise Escaped(c.key)
     M.env_patterns.append((BOUNDARY, boundary))
 
+    # K5: git answers diff-tree / cat-file from a model object store (only while a K5 shape is running)
+    def k5_exec_git_stdin(P, c, args, dt):
+        st = P.state.get('c02_pairs')
+        if st is None:
+            return boundary(P, c, args, dt)
+        argv = [list(as_bytes(a)) for a in elems_of(args[0])]
+        cargv = [bytes(concrete_bytes(a)).decode('latin1') if concrete_bytes(a) is not None else None for a in argv]
+        raw = [(b.v if isinstance(b, Sc) and b.concrete else b) for b in elems_of(args[1])]
+        sb = concrete_bytes(raw)
+        if sb is None:
+            raise Unsupported('git stdin with symbolic bytes')
+        text = bytes(sb).decode()
+        out = []
+        if 'diff-tree' in cargv:
+            for n in ('--stdin', '--raw', '-z', '-r', '--no-abbrev'):
+                if n not in cargv:
+                    raise Unsupported('diff-tree invoked without %s: the output grammar of the model does not apply' % n)
+            for a in cargv[:cargv.index('--') if '--' in cargv else len(cargv)]:
+                if a is not None and a.startswith('-') and a not in ('--stdin', '--raw', '-z', '-r', '--no-abbrev', '--no-pager'):
+                    raise Unsupported('diff-tree model: option %s is not modelled' % a)
+            specs = argv[cargv.index('--') + 1:] if '--' in cargv else None
+            P.events.append(('diff_tree', text))
+            for line in text.split('\n'):
+                if not line:
+                    continue
+                parts = line.split(' ')
+                if len(parts) != 2 or parts[0] not in st['trees'] or parts[1] not in st['trees']:
+                    raise Unsupported('diff-tree model: stdin line %r names an unknown tree' % line)
+                a, b = st['trees'][parts[0]], st['trees'][parts[1]]
+                out += list(line.encode()) + [10]
+                for pname in sorted(st['paths']):
+                    if a.get(pname) == b.get(pname):
+                        continue
+                    pb = st['paths'][pname]
+                    if specs is not None:
+                        if not any(len(s_) == len(pb) and P.branch(bytes_eq(list(s_), list(pb))) for s_ in specs):
+                            continue
+                    old, new = a.get(pname), b.get(pname)
+                    om, oo = ('000000', '0' * 40) if old is None else (old[0], old[1])
+                    nm, no = ('000000', '0' * 40) if new is None else (new[0], new[1])
+                    status = 'A' if old is None else ('D' if new is None else ('T' if om != nm else 'M'))
+                    out += list((':%s %s %s %s %s' % (om, nm, oo, no, status)).encode()) + [0] + list(pb) + [0]
+        elif 'cat-file' in cargv and '--batch' in cargv:
+            P.events.append(('cat_file', text))
+            for oid in text.split('\n'):
+                if not oid:
+                    continue
+                body = st['blobs'].get(oid)
+                if body is None:
+                    out += list(oid.encode()) + list(b' missing\n')
+                else:
+                    out += list(oid.encode()) + list(b' blob ') + list(str(len(body)).encode()) + [10] + list(body) + [10]
+        else:
+            raise Unsupported('git %r is not modelled' % (cargv,))
+        return ok(Agg('std::process::Output', [Opaque('ExitStatus', 0), VecV([b if isinstance(b, Sc) else Sc(b, 8) for b in out]), VecV([])]))
+
+    def k5_global_args(P, c, args, dt):
+        if P.state.get('c02_pairs') is None:
+            return boundary(P, c, args, dt)
+        return VecV([pystring('--no-pager')])
+    M.env['git::repository::exec_git_stdin'] = k5_exec_git_stdin
+    M.env['git::repository::Repository::global_args_for_exec'] = k5_global_args
+
 
 def plan(tier, seed):
     tasks = []
@@ -95,6 +158,10 @@ def plan(tier, seed):
     tasks.append(('replay_step', {'alphabet': ['e', 'a', 'b']}))      # a line with multi-byte characters (byte vs char offsets)
     for kind in ('regular', 'symlink', 'gitlink', 'tree'):
         tasks.append(('blob_mode', {'kind': kind}))
+    for base in ([0, 0], [1, 2], [1, 1], [2, 4]):
+        tasks.append(('pair_contents', {'pairs': 1, 'base': base}))
+    tasks.append(('pair_contents', {'pairs': 2, 'base': [1, 0]}))
+    tasks.append(('pair_contents', {'pairs': 2, 'base': [0, 2], 'len1': 0 if tier == 'quick' else 3}))
     nb = 3 if tier == 'quick' else 4
     for kinds in ([['blob', 0]], [['blob', nb]], [['missing', 0], ['blob', 2]], [['blob', 2], ['blob', 2]], [['blob', 1], ['missing', 0], ['blob', 0]], [['blob', nb], ['blob', 1]]):
         tasks.append(('blob_reader', {'kinds': kinds}))
@@ -358,11 +425,175 @@ def ob_blob_mode(h, shape):
     h.sample = h.witness()
 
 
-OBLIGATIONS = {'inert': ob_inert, 'shift': ob_shift, 'replay_step': ob_replay_step, 'blob_reader': ob_blob_reader, 'blob_mode': ob_blob_mode}
+B1, B2, BE = '1' * 40, '2' * 40, 'e' * 40
+K5_LAYOUT = [None, ('100644', B1), ('100644', B2), ('100755', B1), ('160000', B2), ('100644', BE)]
+
+
+K5_COMBOS = [(1, 1), (1, 2), (0, 1), (2, 0), (3, 1), (5, 2), (4, 1), (2, 2)]
+
+
+def ob_pair_contents(h, shape):
+    """K5: what the rebase replay reads for each rewritten commit.  collect_changed_file_contents_for_commit_pairs
+    with git answered by a model object store: for every commit, the changed tracked files are exactly the
+    tracked paths whose tree entry differs from the first parent's, and the content handed to the replay for each
+    is the blob the commit's tree names for that path (empty when the path is gone or is not a file) - also when
+    two paths, or two commits, name the same blob"""
+    P = h.P
+    M = P.M
+    P.state['c02_open'] = True
+    n = shape['pairs']
+    p0 = [h.byte_in('p0_%d' % j, [97, 58, 32, 34]) for j in range(2)]
+    paths = {'p0': p0, 'p1': list(b'b'), 'u': list(b'untracked')}
+    c1 = [h.byte_in('x%d' % j, [97, 10, 32, 48]) for j in range(shape.get('len1', 2))]
+    c2 = [h.byte_in('y%d' % j, [98, 10, 58]) for j in range(shape.get('len2', 1))]
+    blobs = {B1: c1, B2: c2, BE: []}
+    trees = {'t0': {'p0': K5_LAYOUT[shape['base'][0]], 'p1': K5_LAYOUT[shape['base'][1]], 'u': ('100644', B1)}}
+    lay = []
+    for i in range(n):
+        if n == 1:
+            a = h.choice(len(K5_LAYOUT))
+            b = h.choice(len(K5_LAYOUT))
+        else:
+            # two commits: the layouts that matter (same blob under two paths / in two commits, deletion, mode change, gitlink, empty file)
+            a, b = K5_COMBOS[h.choice(len(K5_COMBOS))]
+        lay.append([a, b])
+        trees['t%d' % (i + 1)] = {'p0': K5_LAYOUT[a], 'p1': K5_LAYOUT[b], 'u': ('100644', B2 if i % 2 == 0 else B1)}
+    P.state['c02_pairs'] = {'trees': trees, 'paths': paths, 'blobs': blobs}
+    h.inputs_struct = {'base': shape['base'], 'layout': lay, 'p0': ByteStr(p0), 'blob1': ByteStr(c1), 'blob2': ByteStr(c2)}
+    pairs = VecV([tup(pystring('c%d' % (i + 1)), pystring('t%d' % i), pystring('t%d' % (i + 1))) for i in range(n)])
+    tracked = [StringV(list(p0)), pystring('b')]
+    specs = VecV(tracked)
+    lookup = MapV('hash', [[mk_str(list(p0)), None], [pystr('b'), None]], 'set')
+    repo = Agg('git::repository::Repository', [])
+    try:
+        r = P.call_named(RA + '::collect_changed_file_contents_for_commit_pairs', [Ref(Cell(repo)), SliceRef(pairs, 0, n), Ref(Cell(lookup)), SliceRef(specs, 0, 2)])
+    except Panic as e:
+        h.panic('K5-no-panic', e.msg)
+        return
+    h.require(r.var == 'Ok', 'K5-reads-what-git-prints', 'well-formed diff-tree / cat-file output was rejected')
+    if r.var != 'Ok':
+        return
+    got = {}
+    for k_, v_ in r.f[0].ent:
+        got[bytes(concrete_bytes(as_bytes(k_))).decode()] = v_
+    h.require(sorted(got) == ['c%d' % (i + 1) for i in range(n)], 'K5-every-commit-has-an-entry', 'commits in the result: %r' % sorted(got))
+    for i in range(n):
+        cm = 'c%d' % (i + 1)
+        if cm not in got:
+            continue
+        changed, contents = got[cm].f[0], got[cm].f[1]
+        ta, tb = trees['t%d' % i], trees['t%d' % (i + 1)]
+        for pname in ('p0', 'p1'):
+            pb = paths[pname]
+            differs = ta[pname] != tb[pname]
+            in_changed = any(len(as_bytes(e[0])) == len(pb) and P.branch(bytes_eq(list(as_bytes(e[0])), list(pb))) for e in changed.ent)
+            h.require(in_changed == differs, 'K5-changed-files-are-the-tracked-paths-that-differ',
+                      'commit %s: path %s %s from the parent tree but is %s as changed' % (cm, pname, 'differs' if differs else 'does not differ', 'reported' if in_changed else 'not reported'))
+            if not differs:
+                continue
+            ent = tb[pname]
+            want = blobs[ent[1]] if (ent is not None and ent[0] in ('100644', '100755', '120000')) else []
+            body = None
+            for k_, v_ in contents.ent:
+                kb = list(as_bytes(k_))
+                if len(kb) == len(pb) and P.branch(bytes_eq(kb, list(pb))):
+                    body = list(as_bytes(v_))
+            if body is None:
+                h.require(False, 'K5-content-is-the-blob-the-tree-names', 'commit %s: no content handed over for changed path %s' % (cm, pname))
+            else:
+                h.require(bytes_equal(body, want), 'K5-content-is-the-blob-the-tree-names',
+                          'commit %s: the content handed to the replay for %s is not the blob its tree names (%d bytes instead of %d)' % (cm, pname, len(body), len(want)))
+        # nothing untracked leaks in
+        for e in changed.ent:
+            eb = list(as_bytes(e[0]))
+            h.require(not (len(eb) == len(paths['u']) and P.branch(bytes_eq(eb, paths['u']))), 'K5-untracked-paths-stay-out', 'an untracked path is reported as changed')
+    h.sample = h.witness()
+
+
+OBLIGATIONS = {'pair_contents': ob_pair_contents, 'inert': ob_inert, 'shift': ob_shift, 'replay_step': ob_replay_step, 'blob_reader': ob_blob_reader, 'blob_mode': ob_blob_mode}
 MUST_COVER = ['K3-restored-from-original', 'K3-carried-by-diff']
 
 
+def _replay_pair_contents(v, native):
+    """K5 natively: real trees built with git plumbing (blobs, modes, a gitlink), real commits, the real reader"""
+    import os
+    import subprocess
+    import tempfile
+    inp = v['inputs']
+    ob = v['obligation']
+    tmp = tempfile.mkdtemp(prefix='vc02p')
+    env = dict(os.environ, GIT_AUTHOR_NAME='v', GIT_AUTHOR_EMAIL='v@v', GIT_COMMITTER_NAME='v', GIT_COMMITTER_EMAIL='v@v',
+               HOME=tmp, GIT_CONFIG_NOSYSTEM='1', GIT_AUTHOR_DATE='1700000000 +0000', GIT_COMMITTER_DATE='1700000000 +0000')
+
+    def git(*a, **kw):
+        p = subprocess.run(['git'] + list(a), cwd=tmp, env=env, stdout=subprocess.PIPE, stderr=subprocess.PIPE, input=kw.get('input'))
+        if p.returncode != 0:
+            raise RuntimeError('git %r: %s' % (a, p.stderr.decode()))
+        return p.stdout.decode().strip()
+    try:
+        git('init', '-q', '.')
+        p0 = bytes_of_json(inp['p0']).decode()
+        names = {'p0': p0, 'p1': 'b', 'u': 'untracked'}
+        real = {B1: git('hash-object', '-w', '--stdin', input=bytes_of_json(inp['blob1'])),
+                B2: git('hash-object', '-w', '--stdin', input=bytes_of_json(inp['blob2'])),
+                BE: git('hash-object', '-w', '--stdin', input=b'')}
+        content = {B1: bytes_of_json(inp['blob1']), B2: bytes_of_json(inp['blob2']), BE: b''}
+        # a gitlink names a commit: any commit object will do
+        link = git('commit-tree', '-m', 'linked', git('mktree', input=b''))
+        layouts = [inp['base']] + inp['layout']
+        trees = []
+        for i, (a, b) in enumerate(layouts):
+            ent = {'p0': K5_LAYOUT[a], 'p1': K5_LAYOUT[b], 'u': ('100644', B1) if i == 0 else ('100644', B2 if (i - 1) % 2 == 0 else B1)}
+            lines = b''
+            for pn, e in ent.items():
+                if e is None:
+                    continue
+                mode, blob = e
+                if mode == '160000':
+                    lines += ('160000 commit %s\t' % link).encode() + names[pn].encode() + b'\0'
+                else:
+                    lines += ('%s blob %s\t' % (mode, real[blob])).encode() + names[pn].encode() + b'\0'
+            trees.append((ent, git('mktree', '-z', input=lines)))
+        commits = []
+        parent = git('commit-tree', '-m', 'base', trees[0][1])
+        for i in range(1, len(trees)):
+            parent = git('commit-tree', '-m', 'c%d' % i, '-p', parent, trees[i][1])
+            commits.append(parent)
+        r = native('c02_pair_contents', {'repo': tmp, 'commits': commits, 'pathspecs': [p0, 'b']})
+        if 'panic' in r:
+            return {'reproduced': v['kind'] == 'panic', 'native': r}
+        if v['kind'] == 'panic':
+            return {'reproduced': False, 'native': r}
+        if not r.get('ok'):
+            return {'reproduced': ob == 'K5-reads-what-git-prints', 'native': r}
+        bad = {k: False for k in ('K5-every-commit-has-an-entry', 'K5-changed-files-are-the-tracked-paths-that-differ', 'K5-content-is-the-blob-the-tree-names', 'K5-untracked-paths-stay-out')}
+        res = r['commits']
+        if sorted(res) != sorted(commits):
+            bad['K5-every-commit-has-an-entry'] = True
+        for i, cm in enumerate(commits):
+            if cm not in res:
+                continue
+            ta, tb = trees[i][0], trees[i + 1][0]
+            for pn in ('p0', 'p1'):
+                differs = ta[pn] != tb[pn]
+                if (names[pn] in res[cm]['changed']) != differs:
+                    bad['K5-changed-files-are-the-tracked-paths-that-differ'] = True
+                if differs:
+                    e = tb[pn]
+                    want = content[e[1]] if (e is not None and e[0] in ('100644', '100755', '120000')) else b''
+                    got = res[cm]['contents'].get(names[pn])
+                    if got is None or got.encode() != want:
+                        bad['K5-content-is-the-blob-the-tree-names'] = True
+            if 'untracked' in res[cm]['changed']:
+                bad['K5-untracked-paths-stay-out'] = True
+        return {'reproduced': bool(bad.get(ob)), 'native': r}
+    finally:
+        subprocess.call(['rm', '-rf', tmp])
+
+
 def replay(v, native):
+    if 'layout' in v['inputs']:
+        return _replay_pair_contents(v, native)
     if 'mode' in v['inputs']:
         r = native('c02_blob_mode', v['inputs'])
         if 'panic' in r:
